@@ -31,21 +31,24 @@ FORBIDDEN = ["sorry", "admit", "native_decide", "bv_decide", "implemented_by", "
 # property -> generator streams [(harness property tag, share of the case budget)]
 # and the verdict tokens that decide it.
 PROPS = {
-    "C01": dict(streams=[("C01", 1.0)], model=["M:levels", "M:panic"], quick=12000, thorough=400000),
+    "C01": dict(streams=[("C01", 0.75), ("STAGE", 0.25)],
+                model=["M:levels", "M:panic", "M:st-explicit", "M:st-seq", "M:st-weak", "M:st-neutral", "M:st-levels", "M:nohooks"],
+                quick=14000, thorough=400000),
     "C02": dict(streams=[("C02", 1.0)], model=["M:classes", "M:paras"], quick=20000, thorough=600000),
     "C03": dict(streams=[("C03", 1.0)], model=["M:rl", "M:rpc"], quick=20000, thorough=600000),
     "C04": dict(streams=[("C04", 1.0)], model=["M:rv", "M:panic"], quick=30000, thorough=1000000),
     "C05": dict(streams=[("C05", 1.0)], model=["M:runs", "M:druns"], quick=12000, thorough=300000),
     "C06": dict(streams=[("C06", 1.0)], model=["M:ro"], quick=20000, thorough=600000),
-    "C07": dict(streams=[("C07", 1.0)], model=["M:panic"], quick=4000, thorough=100000),
+    "C07": dict(streams=[("C07", 0.9), ("STAGE", 0.1)], model=["M:panic", "M:nohooks"], quick=4000, thorough=100000),
     "C08": dict(streams=[("C08", 1.0)], model=["M:classes", "M:levels", "M:rl", "M:rpc"], quick=16000, thorough=500000),
     "C09": dict(streams=[("C09", 0.7), ("C01", 0.3)], model=["M:classes", "M:levels", "M:paras"], quick=14000, thorough=400000),
     "C10": dict(streams=[("C10", 0.7), ("C02", 0.3)], model=["M:classes", "M:levels", "M:paras"], quick=10000, thorough=300000),
-    "C11": dict(streams=[("C11", 1.0)], model=["M:levels", "M:panic", "M:runs", "M:ro"], quick=1200, thorough=40000,
+    "C11": dict(streams=[("C11", 0.8), ("STAGE", 0.2)],
+                model=["M:levels", "M:panic", "M:runs", "M:ro", "M:st-explicit", "M:st-neutral", "M:st-levels", "M:nohooks"], quick=1500, thorough=40000,
                 spec_extra=["S:C01", "S:C05", "S:C06", "S:C07", "S:C08"]),
     "C12": dict(streams=[("C12", 1.0)], model=["M:classes", "M:levels", "M:paras", "M:basedir", "M:rl", "M:runs", "M:ro"], quick=16000, thorough=500000,
                 spec_extra=["S:C01", "S:C02", "S:C03", "S:C05", "S:C06", "S:C16"]),
-    "C13": dict(streams=[("C13", 0.7), ("C01", 0.3)], model=["M:levels"], quick=12000, thorough=400000),
+    "C13": dict(streams=[("C13", 0.7), ("C01", 0.2), ("STAGE", 0.1)], model=["M:levels", "M:st-explicit", "M:st-seq", "M:nohooks"], quick=12000, thorough=400000),
     "C14": dict(streams=[("C14", 1.0)], model=["M:cls", "M:ver"], quick=2, thorough=2, exhaustive=True),
     "C15": dict(streams=[("C15", 1.0)], model=["M:brk", "M:cls"], quick=2, thorough=2, exhaustive=True),
     "C16": dict(streams=[("C16", 1.0)], model=["M:basedir"], quick=30000, thorough=1000000),
